@@ -29,4 +29,17 @@ C05_CostConsistent == T.terminated = 1 =>
          rnd == BSumSeq([v \in 1..T.n |-> BMul(T.wt100[v], BAbsInt((IF T.pos6[v] < T.des6[v] THEN T.des6[v] - T.pos6[v] ELSE T.pos6[v] - T.des6[v]) + 1))], 1)
          tol == BAdd(rnd, BAdd(BFromInt(100000000), BShiftR(c, 2)))
      IN BWf(T.ret14) /\ BLe(c, BAdd(T.ret14, tol)) /\ BLe(T.ret14, BAdd(c, tol))
+\* ---- optimality by certificate: the harness may propose a point (1e-6 grid).  If TLC finds it EXACTLY feasible and
+\* cheaper than the observed result by more than the tolerance, the observed result is not optimal.
+SX(n) == SBig(n)
+WitSlack(c) == SSub(SSub(SMul(SX(T.sc[T.cr[c]]), SX(T.wit6[T.cr[c]])), SMul(SX(T.sc[T.cl[c]]), SX(T.wit6[T.cl[c]]))),
+                    SMul(SX(T.cg5[c]), SX(10)))                                  \* units 1e-6 (scales and gaps doubled)
+WitFeasible == \A c \in CIds : WitSlack(c)[1] >= 0
+CostOfWitness == BSumSeq([v \in 1..T.n |-> BMul(T.wt100[v], BSq(T.wit6[v] - T.des6[v]))], 1)
+C05_NoBetterFeasiblePoint == (T.terminated = 1 /\ T.haswit = 1) =>
+     LET co == CostOfObserved
+         rnd == BSumSeq([v \in 1..T.n |-> BMul(T.wt100[v], BAbsInt((IF T.pos6[v] < T.des6[v] THEN T.des6[v] - T.pos6[v] ELSE T.pos6[v] - T.des6[v]) + 1))], 1)
+         \* negligible tolerance: 1e-3 absolute (1e11 units of 1e-14) + 1e-6 relative, plus the rounding of the observed positions
+         tol == BAdd(rnd, BAdd(<<0, 0, 1000>>, BShiftR(BMulS(co, 100, 1, 0), 2)))
+     IN ~(WitFeasible /\ BLt(BAdd(CostOfWitness, tol), co))
 =============================================================================
